@@ -63,6 +63,44 @@ class CBloomDriver:
             self.feats.add("reload")
             ctx.op("reload", ch)
             return self.verify(f"after {op}")
+        if kind == "stat":
+            # statistics queried at IRREGULAR points of the history (not after every step), so a memoised value would show
+            st_ = self._o("stats")
+            if st_:
+                import math
+                import struct
+                m, kk = o.number_bits, o.number_hashes
+                raw = bytes(o)
+                X = sum(1 for c in struct.unpack("%dI" % m, raw[: 4 * m]) if c)
+                got = ctx.call(self.noexc, o.estimate_elements)
+                if X < m:
+                    want = -(m / kk) * math.log(1 - X / m)
+                    ctx.check(st_, abs(got - want) <= 1.0 + 1e-9 * abs(want),
+                              lambda: f"counting Bloom estimate_elements {got} vs -(m/k)ln(1-X/m) = {want!r} (m={m},k={kk},X={X})")
+                n = o.elements_added
+                want = (1 - math.exp(-kk * n / m)) ** kk
+                got = ctx.call(self.noexc, o.current_false_positive_rate)
+                ctx.check(st_, abs(got - want) <= 1e-9 * max(want, 1e-300) + 1e-300, lambda: f"counting Bloom current_false_positive_rate {got!r} vs {want!r}")
+                self.feats.add("stat")
+            ctx.op("stat")
+            return
+        if kind == "swap":
+            # stat; move the whole outstanding amount of one key to another key (net total unchanged, different cells); stat again
+            src = [k for k in self.pool if self.true[k] > 0]
+            if not src:
+                return self.step(["add", op[1], 1 + op[2] % 3])
+            a = src[op[1] % len(src)]
+            b = self.pool[op[2] % len(self.pool)]
+            self.step(["stat"])
+            n = self.true[a]
+            ctx.call(self.noexc, o.remove, a, n)
+            self.true[a] -= n
+            ctx.call(self.noexc, o.add, b, n)
+            self.true[b] += n
+            self.feats.add("swap_same_total")
+            ctx.op("swap", repr(a), repr(b), n)
+            self.step(["stat"])
+            return self.verify(f"after {op}")
         ki = op[1] % len(self.pool)
         k = self.pool[ki]
         if kind == "remove" and self.true[k] <= 0:
@@ -147,6 +185,7 @@ def case_strategy(tier, max_ops=40):
                        st.tuples(st.just("add"), ki, st.integers(1, 3)),
                        st.tuples(st.just("remove"), ki, st.integers(0, 2000)),
                        st.tuples(st.just("remove"), ki, st.integers(0, 2000)),
+                       st.tuples(st.just("stat")), st.tuples(st.just("swap"), ki, ki),
                        st.tuples(st.just("reload"), st.integers(0, 2)))
         return {"t": "cbloom", "est": est, "fpr": fpr, "hash": draw(gen.hash_name_st()), "pool": draw(gen.pool_st(2, 8)),
                 "ops": [list(o) for o in draw(st.lists(op, min_size=3, max_size=max_ops))]}
